@@ -39,8 +39,16 @@ fn pick_universes(tier: Tier) -> Vec<Universe> {
 }
 
 fn histories(tier: Tier, st: &mut Stats, universes: &[Universe]) {
-    let depth = tier.pick(5, 7);
-    let nops = SENTENCES.len() + 1; // reset(s) for each s, tokenize
+    histories_with(tier, st, universes, false);
+    histories_with(tier, st, universes, true);
+}
+
+/// `with_counter`: a smaller sentence menu plus the operation init_connid_counter(), which
+/// has no effect on the sentence held by the worker nor on its result.
+fn histories_with(tier: Tier, st: &mut Stats, universes: &[Universe], with_counter: bool) {
+    let depth = if with_counter { tier.pick(5, 6) } else { tier.pick(5, 7) };
+    let nsent = if with_counter { 4 } else { SENTENCES.len() };
+    let nops = nsent + 1 + usize::from(with_counter); // reset(s) for each s, tokenize, [init counter]
     let seqs = all_seqs(nops, depth);
     let tasks: Vec<(usize, Opts)> = universes
         .iter()
@@ -93,10 +101,12 @@ fn histories(tier: Tier, st: &mut Stats, universes: &[Universe]) {
             let obs = guard(|| {
                 let mut w = t.new_worker();
                 for &op in h {
-                    if op < SENTENCES.len() {
+                    if op < nsent {
                         w.reset_sentence(SENTENCES[op]);
-                    } else {
+                    } else if op == nsent {
                         w.tokenize();
+                    } else {
+                        w.init_connid_counter();
                     }
                 }
                 read_tokens(&w)
@@ -105,7 +115,11 @@ fn histories(tier: Tier, st: &mut Stats, universes: &[Universe]) {
             let mut shorter_after_longer = false;
             let mut last_reset_len = 0usize;
             for &op in h {
-                if op < SENTENCES.len() {
+                if op > nsent {
+                    st.count("history_steps_init_connid_counter");
+                    continue;
+                }
+                if op < nsent {
                     if tokenized && SENTENCES[op].len() < last_reset_len {
                         shorter_after_longer = true;
                     }
@@ -129,10 +143,12 @@ fn histories(tier: Tier, st: &mut Stats, universes: &[Universe]) {
             let hist_json = || {
                 json!(h
                     .iter()
-                    .map(|&op| if op < SENTENCES.len() {
+                    .map(|&op| if op < nsent {
                         format!("reset_sentence({:?})", SENTENCES[op])
-                    } else {
+                    } else if op == nsent {
                         "tokenize()".to_string()
+                    } else {
+                        "init_connid_counter()".to_string()
                     })
                     .collect::<Vec<_>>())
             };
@@ -497,7 +513,7 @@ pub fn run(tier: Tier) -> i32 {
     ordered_pairs(tier, &mut st);
     schedules(tier, &mut st, &universes);
     free_running(tier, &mut st, &universes);
-    rep.rule = "E2: state = operation history of one worker over {reset_sentence(s) for 6 sentences, tokenize}; all histories up to the depth, each re-executed on a fresh real worker and compared with the reference state machine (sentence, tokenized?). E2b: all ordered pairs (s1, s2) of sentences <= 3 chars on one worker over the lexicon/cost and unknown-word universes. E3: state = schedule; all interleavings of 2-3 real threads (own worker each, one shared tokenizer) at the instrumented yield points with at most P preemptions; per-thread observations must equal the sequential ones. distinct = distinct observed token sequences".into();
+    rep.rule = "E2: state = operation history of one worker over {reset_sentence(s) for 6 sentences, tokenize} and over {reset_sentence(s) for 4 sentences, tokenize, init_connid_counter}; all histories up to the depth, each re-executed on a fresh real worker and compared with the reference state machine (sentence, tokenized?). E2b: all ordered pairs (s1, s2) of sentences <= 3 chars on one worker over the lexicon/cost and unknown-word universes. E3: state = schedule; all interleavings of 2-3 real threads (own worker each, one shared tokenizer) at the instrumented yield points with at most P preemptions; per-thread observations must equal the sequential ones. distinct = distinct observed token sequences".into();
     rep.bounds = json!({"history_depth": tier.pick(5, 7), "ops": 7, "sentences": SENTENCES, "max_preemptions": tier.pick(2, 3), "threads": "2-3"});
     rep.assumptions = vec![
         "interleavings are explored at the instrumented yield points (entry/exit and inside reset_sentence/tokenize, every lattice position); between them the code performs no synchronisation".into(),
@@ -511,6 +527,7 @@ pub fn run(tier: Tier) -> i32 {
         st,
         &[
             "histories_with_repeated_tokenize",
+            "history_steps_init_connid_counter",
             "histories_with_shorter_after_longer",
             "context_switches_inside_api_calls",
             "ordered_sentence_pairs_on_one_worker",
